@@ -45,7 +45,9 @@ func init() {
 	for _, a := range []struct {
 		v int
 		k byte
-	}{{0, 0}, {1, 1}, {5, 3}, {0x155, 9}, {-1, 32}, {0x12345678, 32}} {
+	}{{0, 0}, {1, 1}, {5, 3}, {0x155, 9}, {-1, 32}, {0x12345678, 32},
+		// values with bits above the k that are appended: only the low k bits count
+		{0x1F, 3}, {-1, 5}, {0x2A5, 4}} {
 		a := a
 		add(fmt.Sprintf("AddBits(%#x,%d)", a.v, a.k), 0, func(b *utils.BitList) { b.AddBits(a.v, a.k) }, func(m []bool) []bool { return mAddBits(m, a.v, int(a.k)) })
 	}
